@@ -51,7 +51,11 @@ let check (case : Sexp.t) (res : Sexp.t) : [ `Ok | `Mismatch of string | `Proper
           else (`Ok, true)   (* definition-order errors *)
         | PErrR (_, _, _, msgs), None ->
           if List.exists (fun m -> has m "not in scope" || has m "already exists") msgs then (`Ok, true)
-          else (`Property "scoping fault is not reported as such", true)
+          (* only diagnostics recognised as definition-order errors: the scoping fault itself went unreported (a
+             diagnostic whose wording is not recognised is not held against the implementation) *)
+          else if msgs <> [] && List.for_all (fun m -> has m "will not be available") msgs
+          then (`Property "scoping fault is not reported as such", true)
+          else (`Ok, false)
         | PBad s, _ -> (`Mismatch s, false)))
   | _ -> (`Mismatch "unrecognised", false)
 
